@@ -53,7 +53,12 @@ class ExplodeColorLayerGlyphsFilter(BaseFilter):
         # work on a copy: the layer's glyph belongs to the source font, whereas the
         # new alternate gets its codepoints stripped and its components renamed
         # below, and is then edited by all the filters that follow
-        layerGlyph = _copyGlyph(layerGlyphSet[glyphName])
+        # ... and it carries its new name (filters key their bookkeeping on glyph.name)
+        newGlyph = self.context.glyphFactory
+        layerGlyph = _copyGlyph(
+            layerGlyphSet[glyphName],
+            glyphFactory=lambda _name, **kwargs: newGlyph(layerGlyphName, **kwargs),
+        )
         for component in layerGlyph.components:
             baseLayerGlyphName = self._copyGlyph(
                 layerGlyphSet, glyphSet, component.baseGlyph, layerName
